@@ -1,6 +1,7 @@
 package main
 
 import (
+	"time"
 	"encoding/json"
 	"fmt"
 	"math"
@@ -228,6 +229,13 @@ func hdrGrid(o *Out, rng *rand.Rand, thorough bool, _ []string) {
 			}
 		}
 	}
+	// the largest configurations an int64 can name: highest trackable value just below, at and above 2^62 (the sizing
+	// loop of New doubles an int64 until it exceeds the highest value).  In a child process with a watchdog.
+	runIsolated(o, []string{
+		fmt.Sprintf("hdr-rec 1 %d 1 5", int64(1)<<62-1),
+		fmt.Sprintf("hdr-rec 1 %d 1 %d", int64(1)<<62-1, int64(1)<<62-1),
+		fmt.Sprintf("hdr-rec 1 %d 1 5", int64(1)<<62),
+	}, 4*time.Second)
 }
 
 // ---- hdr-stat: multisets vs exact oracle, merge, window, export/import, marshalling ----
